@@ -104,6 +104,28 @@ def ob_c02_sites(info):
     return out
 
 
+def dyn_c06(info):
+    """lints whose extracted status set holds a status their prefix forbids and that is not a committed known finding:
+    aim a ten-fold mutation sweep at exactly those lints to look for an input that makes them report it"""
+    import os
+    f = _load("facts.json")
+    vdir = os.path.dirname(os.path.dirname(os.path.abspath(__file__)))
+    try:
+        known = set(k["key"] for k in json.load(open(os.path.join(vdir, "known_findings.json")))["findings"] if k.get("status") == "known")
+    except Exception:
+        known = set()
+    labels = {4: "info", 5: "warn", 6: "error"}
+    forbidden = {"e_": (4, 5), "w_": (4, 6), "n_": (5, 6)}
+    bad = []
+    for r in f["registrations"]:
+        fb = forbidden.get(r["name"][:2], ())
+        for st in (r.get("statuses") or []):
+            if st in fb and "severity:%s:%s" % (r["name"], labels[st]) not in known:
+                bad.append(r["name"])
+    bad = sorted(set(bad))[:30]
+    return [("sweep", "C06@" + ",".join(bad))] if bad else []
+
+
 def dyn_c02(info):
     if info.get("c02_focus"):
         return [("sweep", "C02@" + ",".join(info["c02_focus"]))]
@@ -189,6 +211,7 @@ PROPS = {
         "proofs": ["ZlProofs.Props.C06"],
         "corr": [],
         "search": [("sweep", "C06")],
+        "dyn_search": dyn_c06,
         "post": [post_observed_statuses],
         "trusted_base": TB_COMMON + ["the SSA status-set analysis of extract/status.go (every return path of every Execute, through helpers and pointer parameters)"],
         "assumptions": [],
